@@ -143,6 +143,9 @@ func (in *Interp) zero(t types.Type) Value {
 	if isNamed(t, "math/big", "Int") {
 		return BigV{in.st.IntConst64(0)}
 	}
+	if isNamed(t, "time", "Time") {
+		return TimeV{NS: in.st.Const(64, 0), Zero: true}
+	}
 	switch u := t.Underlying().(type) {
 	case *types.Basic:
 		if u.Info()&types.IsString != 0 {
@@ -210,6 +213,13 @@ func (in *Interp) newLoc(t types.Type, v Value) *Loc {
 	if isNamed(t, "math/big", "Int") {
 		if v == nil {
 			v = BigV{in.st.IntConst64(0)}
+		}
+		l.V = v
+		return l
+	}
+	if isNamed(t, "time", "Time") {
+		if v == nil {
+			v = TimeV{NS: in.st.Const(64, 0), Zero: true}
 		}
 		l.V = v
 		return l
@@ -370,6 +380,10 @@ func (in *Interp) merge(c *Term, a, b Value) Value {
 		return r
 	case BigV:
 		return BigV{in.st.Ite(c, x.T, b.(BigV).T)}
+	case TimeV:
+		if y := b.(TimeV); y.Zero == x.Zero {
+			return TimeV{NS: in.st.Ite(c, x.NS, y.NS), Zero: x.Zero}
+		}
 	case Ptr:
 		y := b.(Ptr)
 		if len(x.L) == len(y.L) {
@@ -538,6 +552,12 @@ func (in *Interp) valEq(a, b Value) *Term {
 		}
 	case BigV:
 		return st.Eq(x.T, b.(BigV).T)
+	case TimeV:
+		y := b.(TimeV)
+		if x.Zero != y.Zero {
+			return st.False
+		}
+		return st.Eq(x.NS, y.NS)
 	case nil:
 		return st.Bool(b == nil)
 	}
